@@ -38,7 +38,7 @@ SetCell == \E i \in 1..Len(rows) : \E j \in 1..6 : \E v \in CellDom :
              /\ rows[i][j] # v
              /\ rows' = [rows EXCEPT ![i][j] = v]
              /\ UNCHANGED <<inst, nb>>
-SetNb == \E v \in 0..(Len(rows) + 1) :
+SetNb == \E v \in (-2)..(Len(rows) + 1) :      \* -1 is what a new Packing stores for "not assigned yet"
            /\ v # nb /\ nb' = v /\ UNCHANGED <<inst, rows>>
 
 Next == nc < MaxC /\ nc' = nc + 1 /\ (SetCell \/ SetNb)
